@@ -4,11 +4,13 @@ package demos
 
 import (
 	"bytes"
+	"path/filepath"
 	"runtime"
 	"strings"
 	"testing"
 
 	"github.com/akrylysov/pogreb"
+	"github.com/akrylysov/pogreb/fs"
 	"verif/simfs"
 )
 
@@ -376,5 +378,80 @@ func TestF13_EmptiedSegmentStaysSealed(t *testing.T) {
 	db = mustOpen(t, fs2, o2)
 	if v, _ := db.Get([]byte("b")); string(v) != "2" {
 		t.Errorf("after crash recovery the acknowledged overwrite of b is lost: %d bytes", len(v))
+	}
+}
+
+// F14 (C12): Backup into a directory that already holds an older backup must not keep segment files of
+// that older backup which the database has compacted away since: a deleted key came back in the backup.
+func TestF14_BackupIntoExistingBackupDirectory(t *testing.T) {
+	fsys := simfs.New()
+	o := opts(fsys, 1024, 1, 0.01, false)
+	db := mustOpen(t, fsys, o)
+	val := bytes.Repeat([]byte("v"), 200)
+	for i := 0; i < 4; i++ { // fills the first segment
+		if err := db.Put([]byte{'a' + byte(i)}, val); err != nil {
+			t.Fatal(err)
+		}
+	}
+	if err := db.Backup("bk"); err != nil { // first backup: holds the put records of a..d
+		t.Fatal(err)
+	}
+	for i := 0; i < 4; i++ { // the keys are deleted afterwards
+		if err := db.Delete([]byte{'a' + byte(i)}); err != nil {
+			t.Fatal(err)
+		}
+	}
+	if err := db.Put([]byte("keep"), val); err != nil {
+		t.Fatal(err)
+	}
+	for i := 0; i < 6; i++ { // roll over so that the segments above are sealed, then compact them away
+		if err := db.Put([]byte("keep"), val); err != nil {
+			t.Fatal(err)
+		}
+	}
+	if _, err := db.Compact(); err != nil {
+		t.Fatal(err)
+	}
+	want := contents(t, db)
+	if err := db.Backup("bk"); err != nil { // same destination as before
+		t.Fatal(err)
+	}
+	o2 := *o
+	bdb, err := pogreb.Open("bk", &o2)
+	if err != nil {
+		t.Fatal(err)
+	}
+	if got := contents(t, bdb); show(got) != show(want) {
+		t.Errorf("backup into an existing backup directory: contents %s, the database held %s", show(got), show(want))
+	}
+}
+
+// F15 (C17): DB.FileSize must work on fs.Mem as it does on the OS file systems; memFile.Info() failed
+// for every file that is not open at the moment (metadata files after a restart).
+func TestF15_FileSizeOnMemAfterRestart(t *testing.T) {
+	for _, tc := range []struct {
+		name string
+		fsys fs.FileSystem
+		dir  string
+	}{{"os", fs.OS, filepath.Join(t.TempDir(), "db")}, {"mem", fs.Mem, "f15-mem-db"}} {
+		o := &pogreb.Options{FileSystem: tc.fsys}
+		db, err := pogreb.Open(tc.dir, o)
+		if err != nil {
+			t.Fatal(err)
+		}
+		if err := db.Put([]byte("k"), []byte("v")); err != nil {
+			t.Fatal(err)
+		}
+		if err := db.Close(); err != nil {
+			t.Fatal(err)
+		}
+		db, err = pogreb.Open(tc.dir, o)
+		if err != nil {
+			t.Fatal(err)
+		}
+		if n, err := db.FileSize(); err != nil || n <= 0 {
+			t.Errorf("%s: FileSize after a clean restart = %d, %v", tc.name, n, err)
+		}
+		db.Close()
 	}
 }
